@@ -25,7 +25,11 @@ THEOREMS = [
     "step_stochastic",
     "step3_invariant_partial",
     "importance_total",
-    "importance_panics_iff",
+    "importance_enabled_iff",
+    "importance_table_spec",
+    "importance_index_interval",
+    "edge_pick_never_panics",
+    "edge_move_no_edges",
     "worm_accept_energy_sign",
     "worm_bias_sign_witness",
     "worm_not_stationary_witness",
@@ -35,7 +39,7 @@ THEOREMS = [
 RULE = ("graphs on 2..6 spins without self-loops: frustrated triangles, multi-edges (both orientations), rings, random edges, "
         "J = k/8 of both signs (sometimes 0), biases k/8, beta = k/8 in [0,4]; exact trajectories of do_time_step (1..4 steps, "
         "each move kind forced in turn for the first step, update counts None/0..4, only_basic_moves on/off, importance sampling "
-        "on graphs with a strictly increasing cumulative table incl. one negative first entry) replayed by the model from the "
+        "on a third of the graphs incl. mixed signs and J = 0) replayed by the model from the "
         "recorded RNG words; acceptance probabilities of single spin/edge updates measured by bisection of the gen::<f64>() word; "
         "importance-table boundaries measured by bisection of the gen_range(0.0..total) word; exact one-step kernels of the real "
         "code on 2..3 spins (spin, edge uniform/importance, worm) obtained by exploring the tree of RNG draws. A case is "
@@ -54,15 +58,15 @@ def main(ck):
             ("kernworm", "kernel-worm"),
             ("witness-worm", "worm-bias-sign-witness"),
             ("witness-asym", "worm-asymmetry-witness"),
-            ("witness-imp", "importance-nonpositive-total"),
-            ("witness-noedges", "no-edges-witness"),
+            ("regress-imp", "importance-regression"),
+            ("regress-noedges", "no-edges-regression"),
         ]:
             cases = ck.harness("c19", [mode])
             ck.correspond(name, "drv_c19", cases)
         ck.assumptions += [
             "graphs without self-loops, endpoints in range (WF, NoSelfLoops); beta >= 0",
-            "worm move excluded from the stationarity claim (findings F11, worm selection asymmetry); claimed in full for {spin+edge}",
-            "importance sampling: correspondence only on tables that are strictly increasing (otherwise binary_search on an unsorted slice is std-version dependent); the invariance theorem holds for any state-independent selection weights",
+            "worm move excluded from the stationarity claim (known findings F11, F17); claimed in full for {spin+edge}",
+            "importance sampling: an exact hit of the draw on a table entry is a tie (binary_search among equal entries is std-version dependent); the invariance theorem holds for any state-independent selection weights",
             "exp: f64::exp vs a 200-bit rational enclosure, decisions closer than 1e-9 are ties",
         ]
         ck.extra_trusted += [
